@@ -19,6 +19,7 @@ type Mutant struct {
 	New    string `json:"new"`
 	What   string `json:"what"`
 	Expect string `json:"expect,omitempty"` // rule expected to fire (informational)
+	Patch  string `json:"patch,omitempty"`  // alternatively: a unified diff (path relative to the verif dir) applied with patch -p1
 }
 
 type mutantResult struct {
@@ -39,6 +40,22 @@ func runSensitivity(prop, repo, verif string) []mutantResult {
 	if err := json.Unmarshal(b, &ms); err != nil {
 		return []mutantResult{{ID: "catalogue", Verdict: "error", Note: err.Error()}}
 	}
+	// the confirmed seeded changes of this property are part of the catalogue
+	if dirs, err := filepath.Glob(filepath.Join(verif, "seeded", prop+"?")); err == nil {
+		for _, d := range dirs {
+			what := "seeded change " + filepath.Base(d)
+			var meta struct {
+				Summary string `json:"summary"`
+			}
+			if mb, err := os.ReadFile(filepath.Join(d, "meta.json")); err == nil && json.Unmarshal(mb, &meta) == nil && meta.Summary != "" {
+				what += ": " + meta.Summary
+				if len(what) > 240 {
+					what = what[:240] + "…"
+				}
+			}
+			ms = append(ms, Mutant{ID: "seed-" + filepath.Base(d), Patch: filepath.Join("seeded", filepath.Base(d), "patch.diff"), What: what})
+		}
+	}
 	self, _ := os.Executable()
 	res := make([]mutantResult, len(ms))
 	sem := make(chan struct{}, 4)
@@ -58,11 +75,15 @@ func runSensitivity(prop, repo, verif string) []mutantResult {
 
 func runMutant(self, prop, repo, verif string, m Mutant) mutantResult {
 	r := mutantResult{ID: m.ID, What: m.What}
-	src, err := os.ReadFile(filepath.Join(repo, m.File))
-	if err != nil || strings.Count(string(src), m.Old) != 1 {
-		r.Verdict = "not-applicable"
-		r.Note = "anchor fragment not found exactly once in " + m.File
-		return r
+	var src []byte
+	var err error
+	if m.Patch == "" {
+		src, err = os.ReadFile(filepath.Join(repo, m.File))
+		if err != nil || strings.Count(string(src), m.Old) != 1 {
+			r.Verdict = "not-applicable"
+			r.Note = "anchor fragment not found exactly once in " + m.File
+			return r
+		}
 	}
 	tmp, err := os.MkdirTemp("", "verif-mut-")
 	if err != nil {
@@ -74,10 +95,26 @@ func runMutant(self, prop, repo, verif string, m Mutant) mutantResult {
 		r.Verdict, r.Note = "error", "copy: "+string(out)
 		return r
 	}
-	mutated := strings.Replace(string(src), m.Old, m.New, 1)
-	if err := os.WriteFile(filepath.Join(tmp, m.File), []byte(mutated), 0o644); err != nil {
-		r.Verdict, r.Note = "error", err.Error()
-		return r
+	if m.Patch != "" {
+		pf, perr := os.Open(filepath.Join(verif, m.Patch))
+		if perr != nil {
+			r.Verdict, r.Note = "error", perr.Error()
+			return r
+		}
+		pc := exec.Command("patch", "-s", "-p1", "-d", tmp)
+		pc.Stdin = pf
+		out, perr := pc.CombinedOutput()
+		pf.Close()
+		if perr != nil {
+			r.Verdict, r.Note = "not-applicable", "the seeded change no longer applies to this tree: "+lastLines(string(out), 2)
+			return r
+		}
+	} else {
+		mutated := strings.Replace(string(src), m.Old, m.New, 1)
+		if err := os.WriteFile(filepath.Join(tmp, m.File), []byte(mutated), 0o644); err != nil {
+			r.Verdict, r.Note = "error", err.Error()
+			return r
+		}
 	}
 	cmd := exec.Command(self, "check", "-prop", prop, "-tier", "quick", "-repo", tmp, "-verif", verif, "-no-evidence")
 	out, _ := cmd.CombinedOutput()
